@@ -234,3 +234,17 @@ Definition table_to_tree (cow : bool) (t : option tree) (pat : list seg) (rows :
   | Some items => set_all cow 2 [] items (match t with None => Node true 2 [] | Some t => copy_top t end, false)
   | None => None
   end.
+
+(* ------------------------------------------------------------------ the general merge spec
+   A branch of the update that holds no leaf (an empty dict, or dicts nesting only empty dicts) contributes nothing:
+   it neither creates a path nor replaces a leaf of t.  prune removes exactly those branches (below the root). *)
+Fixpoint prune (u : ptree) : ptree :=
+  match u with
+  | PLeaf v => PLeaf v
+  | PNode kids =>
+      PNode (flat_map (fun kv => match snd kv with
+                                 | PLeaf v => [(fst kv, PLeaf v)]
+                                 | PNode _ => match prune (snd kv) with PNode [] => [] | s => [(fst kv, s)] end
+                                 end) kids)
+  end.
+Definition merge_spec (ign : list val) (t u : ptree) : ptree := pmerge ign t (prune u).
